@@ -952,6 +952,14 @@ Proof.
   split; [apply lkx_run_safe; assumption|]. split; vm_compute; reflexivity.
 Qed.
 
+Lemma lk_locked_le_sched_full a t : lk_wf_b a = true -> 0 <= lk_df a + lk_dv a ->
+  0 <= lk_locked_coins a t <= lk_sched_locked a t /\ lk_sched_locked a t = Z.max (lk_locked_up a t) (lk_unvested a t).
+Proof. intros H Hd. exact (conj (lk_locked_le_sched a t H Hd) (lk_sched_locked_eq_max a t)). Qed.
+
+Lemma lkx_run_inv_wfs_partial ops s : lkx_wfs s -> lkx_inv s -> lkx_tracked s ->
+  lkx_no_grant_after_slash false ops = true -> lkx_inv (lkx_run ops s) /\ lkx_wfs (lkx_run ops s).
+Proof. intros Hw Hi Ht Hn. exact (conj (lkx_run_inv_partial ops s Hw Hi Ht Hn) (lkx_run_wfs ops s Hw)). Qed.
+
 Lemma lkx_run_safe_wfs ops s : lkx_wfs s -> lkx_safe s -> lkx_safe (lkx_run ops s) /\ lkx_wfs (lkx_run ops s).
 Proof. intros Hw Hs. exact (conj (lkx_run_safe ops s Hw Hs) (lkx_run_wfs ops s Hw)). Qed.
 
